@@ -1,7 +1,39 @@
 // Counterexample(s) found by Kani/CBMC for property C12, harness c12_wordlike_4 (ser_quoting::verif::c12_wordlike_4)
-// failed checks: [{"desc": "\"a word-like key is emitted plain although it reads back as something else\"", "file": "/verif/harness/h_ser_quoting.rs", "line": 270, "fn": "ser_quoting::verif::wordlike_n::<4>"}]
+// failed checks: [{"desc": "\"a word-like value is emitted plain although it reads back as something else\"", "file": "/verif/harness/h_ser_quoting.rs", "line": 276, "fn": "ser_quoting::verif::wordlike_n::<4>"}, {"desc": "\"a word-like key is emitted plain although it reads back as something else\"", "file": "/verif/harness/h_ser_quoting.rs", "line": 283, "fn": "ser_quoting::verif::wordlike_n::<4>"}]
 // replay: /verif/bin/check --replay /verif/replays/C12-c12_wordlike_4.rs
 //HARNESS c12_wordlike_4
+/// Test generated for harness `ser_quoting::verif::c12_wordlike_4` 
+///
+/// Check for `assertion`: ""a word-like value is emitted plain although it reads back as something else""
+///
+/// # Warning
+///
+/// Concrete playback tests combined with stubs or contracts is highly
+/// experimental, and subject to change.
+///
+/// The original harness has stubs which are not applied to this test.
+/// This may cause a mismatch of non-deterministic values if the stub
+/// creates any non-deterministic value.
+/// The execution path may also differ, which can be used to refine the stub
+/// logic.
+
+#[test]
+fn kani_concrete_playback_c12_wordlike_4_13576089657949527934() {
+    let concrete_vals: Vec<Vec<u8>> = vec![
+        // 110
+        vec![110],
+        // 85
+        vec![85],
+        // 76
+        vec![76],
+        // 76
+        vec![76],
+        // 0
+        vec![0],
+    ];
+    kani::concrete_playback_run(concrete_vals, c12_wordlike_4);
+}
+
 /// Test generated for harness `ser_quoting::verif::c12_wordlike_4` 
 ///
 /// Check for `assertion`: ""a word-like key is emitted plain although it reads back as something else""
@@ -18,14 +50,14 @@
 /// logic.
 
 #[test]
-fn kani_concrete_playback_c12_wordlike_4_7623327665504788248() {
+fn kani_concrete_playback_c12_wordlike_4_7361595754012436217() {
     let concrete_vals: Vec<Vec<u8>> = vec![
         // 116
         vec![116],
         // 82
         vec![82],
-        // 85
-        vec![85],
+        // 117
+        vec![117],
         // 101
         vec![101],
         // 0
